@@ -15,9 +15,13 @@ import (
 	"math/big"
 	"os"
 	"path/filepath"
+	"runtime"
 	"sort"
 	"strconv"
 	"strings"
+	"sync"
+	"sync/atomic"
+	"time"
 )
 
 type Args struct {
@@ -72,10 +76,10 @@ func (r *Rand) Intn(n int) int {
 	}
 	return int(r.Uint64() % uint64(n))
 }
-func (r *Rand) Int63() int64   { return int64(r.Uint64() >> 1) }
-func (r *Rand) Bool() bool     { return r.Uint64()&1 == 1 }
-func (r *Rand) Chance(p int) bool { return r.Intn(100) < p } // p percent
-func (r *Rand) Fork() *Rand    { return &Rand{s: r.Uint64()} }
+func (r *Rand) Int63() int64        { return int64(r.Uint64() >> 1) }
+func (r *Rand) Bool() bool          { return r.Uint64()&1 == 1 }
+func (r *Rand) Chance(p int) bool   { return r.Intn(100) < p } // p percent
+func (r *Rand) Fork() *Rand         { return &Rand{s: r.Uint64()} }
 func Pick[T any](r *Rand, xs []T) T { return xs[r.Intn(len(xs))] }
 
 // ---- Coq terms (cases.v opens N_scope) ----
@@ -129,6 +133,9 @@ type Violation struct {
 }
 
 type Out struct {
+	mu         sync.Mutex
+	progress   atomic.Int64 // unix nanoseconds of the last Add / Count / Violate
+	maxGap     atomic.Int64 // longest time between two of them, ns
 	args       Args
 	require    string // e.g. "From V Require Import Corr.MetricRun."
 	caseType   string // e.g. "mcase"
@@ -144,8 +151,62 @@ type Out struct {
 }
 
 func NewOut(a Args, require, caseType string, shardSize int) *Out {
-	return &Out{args: a, require: require, caseType: caseType, shardSize: shardSize,
+	o := &Out{args: a, require: require, caseType: caseType, shardSize: shardSize,
 		nontrivial: map[string]bool{}, Dist: map[string]int{}, Extra: map[string]any{}, keepJSON: true}
+	o.progress.Store(time.Now().UnixNano())
+	go o.watchdog()
+	return o
+}
+
+// watchdog: a harness drives the implementation case by case; when no case has
+// finished (no Add / Count / Violate) for the stall limit, the implementation is
+// blocked - a deadlock or a livelock - while running the next case.  That is a
+// failing input like any other: it is reported (class harness-stalled, with the
+// last finished case and the goroutine dump naming where it is blocked), what
+// was gathered so far is flushed and the harness ends, instead of sitting there
+// until the driver's 25-minute timeout.  VERIF_STALL overrides the limit (seconds).
+func (o *Out) watchdog() {
+	limit := 300 * time.Second
+	if o.args.Tier == "thorough" {
+		limit = 900 * time.Second
+	}
+	if v, err := strconv.Atoi(os.Getenv("VERIF_STALL")); err == nil && v > 0 {
+		limit = time.Duration(v) * time.Second
+	}
+	for {
+		time.Sleep(time.Second)
+		idle := time.Since(time.Unix(0, o.progress.Load()))
+		if idle < limit {
+			continue
+		}
+		buf := make([]byte, 1<<16)
+		buf = buf[:runtime.Stack(buf, true)]
+		if len(buf) > 12000 {
+			buf = buf[:12000]
+		}
+		if !o.mu.TryLock() {
+			// the main goroutine is inside Flush: let it finish
+			continue
+		}
+		var last any
+		if n := len(o.cases); n > 0 {
+			last = o.cases[n-1]
+		}
+		o.Viol = append(o.Viol, Violation{"harness-stalled",
+			fmt.Sprintf("no case finished for %d s: the implementation is blocked (deadlock or livelock) while running the case after #%d; goroutine dump in the replay", int(idle.Seconds()), len(o.cases)),
+			map[string]any{"kind": "stalled", "after_case": len(o.cases), "last_finished_case": last, "goroutines": string(buf)}})
+		o.mu.Unlock()
+		o.Flush("stalled: "+fmt.Sprint(len(o.cases))+" cases finished before the implementation blocked", false)
+		os.Exit(0)
+	}
+}
+
+func (o *Out) touch() {
+	now := time.Now().UnixNano()
+	if gap := now - o.progress.Load(); gap > o.maxGap.Load() {
+		o.maxGap.Store(gap)
+	}
+	o.progress.Store(now)
 }
 
 // NextID is the id the next Add will get (ids are positions, from 0).
@@ -156,6 +217,9 @@ func (o *Out) NextID() uint64 { return uint64(len(o.coq)) }
 // property's rule.  Distinctness is measured on the hash of the JSON rendering
 // minus the id.
 func (o *Out) Add(coq string, j any, nontrivial bool) {
+	o.mu.Lock()
+	defer o.mu.Unlock()
+	o.touch()
 	o.coq = append(o.coq, coq)
 	o.cases = append(o.cases, j)
 	o.evals++
@@ -166,9 +230,17 @@ func (o *Out) Add(coq string, j any, nontrivial bool) {
 	}
 }
 
-func (o *Out) Count(key string) { o.Dist[key]++ }
+func (o *Out) Count(key string) {
+	o.mu.Lock()
+	defer o.mu.Unlock()
+	o.touch()
+	o.Dist[key]++
+}
 
 func (o *Out) Violate(class, what string, c any) {
+	o.mu.Lock()
+	defer o.mu.Unlock()
+	o.touch()
 	o.Viol = append(o.Viol, Violation{class, what, c})
 }
 
@@ -177,6 +249,8 @@ func (o *Out) Len() int { return len(o.coq) }
 // Flush writes cases_<k>.v shards, cases.json and oracle.json into the output
 // directory.
 func (o *Out) Flush(rule string, exhaustive bool) {
+	o.mu.Lock()
+	defer o.mu.Unlock()
 	dir := o.args.Out
 	if dir == "" {
 		dir = "."
@@ -218,6 +292,7 @@ func (o *Out) Flush(rule string, exhaustive bool) {
 		keys = append(keys, k)
 	}
 	sort.Strings(keys)
+	o.Extra["longest_gap_between_cases_s"] = float64(o.maxGap.Load()/1e6) / 1000
 	meta := map[string]any{
 		"evaluations": o.evals, "distinct_nontrivial": len(o.nontrivial), "rule": rule,
 		"exhaustive": exhaustive, "dist": o.Dist, "samples": samples, "shards": shards,
